@@ -11,7 +11,8 @@ TMOD = "server/AcceptDispatchTrace.tla"
 SMOD = "server/AcceptDispatchStrict.tla"
 VARIANTS = ["IgnoreUnknownIdx", "UnlinkOnDeregister", "ResumeClearsBackoff", "IncBeforeSend", "NoClearOnLimit", "ResumeSkipsAcceptAll",
             "BackoffNeverReregisters", "RoundRobinStuck", "ConnErrIsFatal", "WakeSkipsAcceptAll", "PauseKeepsRegistered",
-            "RejoinPausedNoAvail", "ResetSeparate", "JumpToFirstAvailable", "ReportOnlyIfBitSet", "ResendWithoutCheck"]
+            "RejoinPausedNoAvail", "ResetSeparate", "JumpToFirstAvailable", "ReportOnlyIfBitSet", "ResendWithoutCheck",
+            "RejoinAtIndex", "DropPausePair", "TrackRepeat"]
 
 
 def read_cfg_constants(cfg):
